@@ -346,6 +346,10 @@ def check_sinks(ctx, R="C15.sinks"):
     for m in model.modules.values():
         if not (m.path.startswith("src/scenic/core/") or m.path.startswith("src/scenic/syntax/")):
             continue
+        if m.name.startswith(("scenic.core.dynamics", "scenic.core.simulators")):
+            # the code that drives a simulation: a draw made here IS part of the run's user-visible stream (seeded like any
+            # other), not randomness consumed behind the user's back; whether it can be replayed is C18's question
+            continue
         for c in ast.walk(m.tree):
             if not isinstance(c, ast.Call):
                 continue
